@@ -17,6 +17,7 @@ import (
 	"strings"
 
 	"github.com/martian-lang/martian/martian/core"
+	"github.com/martian-lang/martian/martian/syntax"
 	"github.com/martian-lang/martian/martian/vshim"
 
 	"verif/lib/progen"
@@ -134,6 +135,9 @@ type Result struct {
 	DebugNotes     []string
 	// TopOutsPre is the top-level _outs before post-processing.
 	TopOutsPre string
+	// CompiledOK: the invocation was refused although the compiler accepts
+	// the program.
+	CompiledOK bool
 }
 
 // Removal is one VDR deletion as measured by the harness.
@@ -386,6 +390,12 @@ func Run(p *progen.Program, sched Schedule, opts Options) (res *Result) {
 	}
 	if err != nil {
 		res.Err = "invoke: " + err.Error()
+		if !opts.Resume {
+			// does the compiler (mro check) accept the program on its own?
+			if _, _, _, cerr := syntax.ParseSourceBytes([]byte(src), filepath.Join(mroDir, "prog.mro"), []string{mroDir}, false); cerr == nil {
+				res.CompiledOK = true
+			}
+		}
 		return
 	}
 	pid := opts.Pid
